@@ -15,7 +15,7 @@ CLAIMED = {
             'of coordinate_to_sliding_bin_locations are exactly the windows containing the coordinate, coordinate_to_bins '
             'returns each such window once (first-principles postconditions from the property statement).',
             'A3 exact rational model of float division/np.ceil/np.floor/int() for |operands|<2**53; z3/cvc5 soundness; '
-            'VC generator (guarded by CPython cross-check and canary obligations). assignReads bin-increment block: see C11.',
+            'VC generator (guarded by CPython cross-check and canary obligations). The bin-increment block of assignReads is proved for the non-sliding case (exactly the bin containing the coordinate, bins beyond the contig skipped unless keepOverBounds) using the coordinate_to_bins contract at the call site; the sliding increment loop of assignReads is not under contract.',
             '5/C10'),
     'C17': ('Unbounded proof (loop invariants, loop-body contracts, callee contracts) that fill_range yields exactly the '
             'spec bins, trim_rangelist keeps exactly the clipped non-empty intersections in order, and blacklisted_binning '
@@ -106,6 +106,16 @@ CLAIMED = {
             'on-disk cache codec (write_cache/read_cached), cache atomicity and contig access orders beyond one lookup are not '
             'under contract.',
             '5/C18'),
+    'C11': ('Proof for an arbitrary read (symbolic flags, MAPQ, CIGAR text, tags mp/NM/XA/RR/NH/SM/DS; mapped and unmapped) and '
+            'arbitrary option values that read_should_be_counted answers True iff every selected filter of the statement passes '
+            'and never raises; that assignReads changes no cell when the read is filtered and otherwise exactly one cell - the '
+            'read\'s own sample and feature - by the documented weight (1, or 1/2 for a paired read with mapped mate unless '
+            'division is off or a mate is selected; divided by the number of XA hits or NH); and, with -bin, exactly the bin '
+            'containing the coordinate.',
+            'pysam record stub (closed world of tags); the XA alt-contig scan is an opaque predicate; len(XA.split(";")) an '
+            'uninterpreted count; blacklist with one interval; assignReads verified for joined feature reference_name / sample tag '
+            'SM, no bed file, no byValue, no splitFeatures, non-sliding bins; create_count_table iteration over BAM files: A4.',
+            '5/C11'),
 }
 
 NOT_YET = 'check not built yet (framework under construction; see DESIGN.md section 5)'
